@@ -19,6 +19,8 @@ func runC19b(c *core.Ctx) {
 	c.Rule("R19.7", "the number of ring points of a node does not depend on how many nodes there are when weights are equal: the replica count is computed in exact integer arithmetic or rounded to nearest - a float product truncated towards zero loses a whole replica whenever rounding error leaves it just below the integer, and the nodes that survive a removal then exchange keys", 1)
 	c.Rule("R19.9", "a ring lookup stays inside the ring: every index into the sorted ring is the constant wrap-around or a search result tested to be below len(ring) on the edge it arrives by", 1)
 	runR199(c, "R19.9")
+	c.Rule("R19.10", "backfill mode: a copy sent to the local cluster carries the key of the very response whose data it stores", 1)
+	runR1910(c, "R19.10")
 	c.Rule("R19.8", "the listing position of a node flows into nothing that is stored in a ring point except the node itself: a position stored beside the point (and consulted by the comparator or the lookup) makes the sorted ring depend on listing order", 1)
 
 	// ---- R19.6
@@ -455,4 +457,128 @@ func runR199(c *core.Ctx, rule string) {
 	if n == 0 {
 		c.Undecided(rule, "cluster#ring-index", "-", "no index into the sorted ring found")
 	}
+}
+
+// runR1910 (R19.10): in backfill mode the copy of an item goes to the node its own key hashes to. Every set the backfill
+// orchestrator sends to the local cluster takes Key and Data from the *same* response received from the source cluster;
+// a key taken from anywhere else (the request's key list by position, say) stores one key's data under another key -
+// and on the node of that other key: a later get of either key does not find what the source cluster holds for it.
+func runR1910(c *core.Ctx, rule string) {
+	var fns []*ssa.Function
+	for _, fn := range pkgFuncs(c, "orcas") {
+		root := fn
+		for root.Parent() != nil {
+			root = root.Parent()
+		}
+		if strings.Contains(core.FuncName(root), "BackfillOrca).Get") {
+			fns = append(fns, fn)
+		}
+	}
+	pv := &ssax.Prov{}
+	n := 0
+	for _, fn := range fns {
+		counts := map[string]int{}
+		ssax.Instrs(fn, func(ins ssa.Instruction) {
+			cc := ssax.CallOf(ins)
+			if cc == nil || len(cc.Args) == 0 {
+				return
+			}
+			var req ssa.Value
+			for _, a := range cc.Args {
+				if strings.HasSuffix(types.TypeString(a.Type(), nil), "common.SetRequest") {
+					req = a
+				}
+			}
+			if req == nil {
+				return
+			}
+			n++
+			key := ordinalKey(counts, core.FuncName(fn)+"#backfill-set")
+			ks := pv.Sources(req, "Key")
+			ds := pv.Sources(req, "Data")
+			ok := len(ks) > 0 && len(ds) > 0
+			for _, k := range ks {
+				match := false
+				for _, d := range ds {
+					if k.Kind == "recv" && d.Kind == "recv" && k.V == d.V && len(k.Path) == 1 && k.Path[0] == "Key" {
+						match = true
+					}
+				}
+				if !match {
+					ok = false
+				}
+			}
+			// the key may also be taken from the request by position - provided the source handler answers every key, in
+			// order, so that the position of a response is the position of its key
+			byPosition := len(ks) > 0
+			for _, k := range ks {
+				if !(k.Kind == "param" && len(k.Path) == 2 && k.Path[0] == "Keys" && k.Path[1] == "[]") {
+					byPosition = false
+				}
+			}
+			// ... by a position that moves: the index is a counter, not a constant
+			ssax.Instrs(fn, func(i ssa.Instruction) {
+				if ia, isIdx := i.(*ssa.IndexAddr); isIdx && isFieldLoad(ia.X, "Keys") {
+					if _, isConst := ia.Index.(*ssa.Const); isConst {
+						byPosition = false
+					}
+				}
+			})
+			if byPosition && ssax.All(ds, func(d ssax.Src) bool { return d.Kind == "recv" }) {
+				skipped := keysWithoutResponse(c)
+				c.Check(len(skipped) == 0, rule, key, c.P.Pos(ins.Pos()), "the key is taken by position and the cluster handler answers every key in order",
+					"the copy sent to the local cluster takes its key from the request by the position of the response, but the cluster handler does not answer every key ("+strings.Join(skipped, "; ")+"): after a skipped key every later response is paired with the key before it - data stored under another key, on that key's node")
+				return
+			}
+			c.Check(ok, rule, key, c.P.Pos(ins.Pos()), "key and data of the copy come from one response of the source cluster",
+				fmt.Sprintf("the copy sent to the local cluster takes its key from %v and its data from %v: not the key of the response whose data it stores - the data of one key is stored under another key, on that key's node", ssax.Strings(ks), ssax.Strings(ds)))
+		})
+	}
+	if n == 0 {
+		c.Undecided(rule, "orcas.BackfillOrca.Get#backfill-set", "-", "no set to the local cluster found in the backfill orchestrator")
+	}
+}
+
+// keysWithoutResponse lists the paths through one iteration of the cluster handler's per-key get loop that reach the
+// next key without having sent a response for this one.
+func keysWithoutResponse(c *core.Ctx) []string {
+	var out []string
+	found := false
+	for _, fn := range pkgFuncs(c, relCluster) {
+		isSend := func(ins ssa.Instruction) bool {
+			s, ok := ins.(*ssa.Send)
+			return ok && strings.HasSuffix(types.TypeString(s.X.Type(), nil), "common.GetResponse")
+		}
+		for _, l := range ssax.Loops(fn) {
+			has := false
+			for b := range l.Blocks {
+				for _, ins := range b.Instrs {
+					if isSend(ins) {
+						has = true
+					}
+				}
+			}
+			if !has {
+				continue
+			}
+			found = true
+			for _, s := range l.Header.Succs {
+				if !l.Blocks[s] {
+					continue
+				}
+				hit, trail := (ssax.Reach{
+					Target: func(ins ssa.Instruction) bool { return ins == l.Header.Instrs[0] },
+					Avoid:  isSend,
+					Within: l.Blocks,
+				}).FromBlock(s)
+				if hit != nil {
+					out = append(out, core.FuncName(fn)+": "+strings.Join(ssax.BlockTrail(c.P.Fset, trail), " -> "))
+				}
+			}
+		}
+	}
+	if !found {
+		out = append(out, "no per-key response loop found in the cluster handler")
+	}
+	return out
 }
